@@ -299,6 +299,106 @@ pub fn corpus() -> Vec<(&'static str, Vec<Step>)> {
     all
 }
 
+/// THE pattern behind every stale-clock / missing-sweep defect, for EVERY single-key command of every
+/// value type: a value of the command's type gets a deadline; the clock passes it; meanwhile only
+/// keys whose home is ANOTHER shard see traffic (on one shard that traffic sweeps the store, on N
+/// shards the key's own shard hears nothing); then the command itself is the first message the key's
+/// shard gets — just before, exactly at, and after the deadline; then the keyspace is read back.
+pub fn after_deadline(ctx: &Ctx, n: usize) -> Vec<(String, Vec<Step>)> {
+    let t = BASE_MS;
+    let k0 = KEYS[0].to_string();
+    let others: Vec<String> = KEYS.iter().skip(1).filter(|k| ctx.gen(k.as_bytes(), n) != ctx.gen(k0.as_bytes(), n)).map(|k| k.to_string()).collect();
+    let pex = |ms: i64| Command::PExpire { key: KEYS[0].to_string(), milliseconds: ms, nx: false, xx: false, gt: false, lt: false };
+    let mk_str = vec![Command::set(k0.clone(), s("10"))];
+    let mk_list = vec![Command::RPush(k0.clone(), vec![s("3"), s("1"), s("2")])];
+    let mk_set = vec![Command::SAdd(k0.clone(), vec![s("m"), s("n")])];
+    let mk_hash = vec![Command::HSet(k0.clone(), vec![(s("f"), s("5")), (s("g"), s("x"))])];
+    let mk_zset = vec![Command::ZAdd { key: k0.clone(), pairs: vec![(1.0, s("a")), (2.0, s("b"))], nx: false, xx: false, gt: false, lt: false, ch: false }];
+    let k = || k0.clone();
+    let fl = |c: Command| c;
+    let cmds: Vec<(&Vec<Command>, Command)> = vec![
+        (&mk_str, Command::Get(k())),
+        (&mk_str, Command::StrLen(k())),
+        (&mk_str, Command::GetRange(k(), 0, -1)),
+        (&mk_str, Command::Append(k(), s("7"))),
+        (&mk_str, Command::Incr(k())),
+        (&mk_str, Command::IncrBy(k(), 5)),
+        (&mk_str, Command::SetNx(k(), s("new"))),
+        (&mk_str, Command::SetRange(k(), 1, s("z"))),
+        (&mk_str, Command::GetDel(k())),
+        (&mk_str, Command::GetEx { key: k(), ex: None, px: None, exat: None, pxat: None, persist: true }),
+        (&mk_str, { let mut c = Command::set(k(), s("w")); if let Command::Set { xx, .. } = &mut c { *xx = true; } c }),
+        (&mk_str, { let mut c = Command::set(k(), s("w")); if let Command::Set { nx, .. } = &mut c { *nx = true; } c }),
+        (&mk_str, { let mut c = Command::set(k(), s("w")); if let Command::Set { keepttl, .. } = &mut c { *keepttl = true; } c }),
+        (&mk_str, Command::TypeOf(k())),
+        (&mk_str, Command::Ttl(k())),
+        (&mk_str, Command::Pttl(k())),
+        (&mk_str, Command::ExpireTime(k())),
+        (&mk_str, Command::PExpireTime(k())),
+        (&mk_str, Command::Persist(k())),
+        (&mk_str, Command::Expire { key: k(), seconds: 5, nx: false, xx: false, gt: false, lt: false }),
+        (&mk_str, Command::Exists(vec![k()])),
+        (&mk_str, Command::Del(vec![k()])),
+        (&mk_str, Command::MGet(vec![k()])),
+        (&mk_str, Command::MSetNx(vec![(k(), s("q"))])),
+        (&mk_str, Command::Rename(k(), k())),
+        (&mk_list, Command::LLen(k())),
+        (&mk_list, Command::LRange(k(), 0, -1)),
+        (&mk_list, Command::LIndex(k(), 0)),
+        (&mk_list, Command::LPush(k(), vec![s("h")])),
+        (&mk_list, Command::RPush(k(), vec![s("t")])),
+        (&mk_list, Command::LPop(k())),
+        (&mk_list, Command::RPop(k())),
+        (&mk_list, Command::LSet(k(), 0, s("u"))),
+        (&mk_list, Command::LTrim(k(), 0, 0)),
+        (&mk_list, Command::RPopLPush(k(), k())),
+        (&mk_list, Command::Sort { key: k(), store: None }),
+        (&mk_set, Command::SCard(k())),
+        (&mk_set, Command::SMembers(k())),
+        (&mk_set, Command::SIsMember(k(), s("m"))),
+        (&mk_set, Command::SAdd(k(), vec![s("o")])),
+        (&mk_set, Command::SRem(k(), vec![s("m")])),
+        (&mk_hash, Command::HGet(k(), s("f"))),
+        (&mk_hash, Command::HLen(k())),
+        (&mk_hash, Command::HGetAll(k())),
+        (&mk_hash, Command::HKeys(k())),
+        (&mk_hash, Command::HVals(k())),
+        (&mk_hash, Command::HExists(k(), s("f"))),
+        (&mk_hash, Command::HSet(k(), vec![(s("h"), s("1"))])),
+        (&mk_hash, Command::HDel(k(), vec![s("f")])),
+        (&mk_hash, Command::HIncrBy(k(), s("f"), 2)),
+        (&mk_zset, Command::ZCard(k())),
+        (&mk_zset, Command::ZScore(k(), s("a"))),
+        (&mk_zset, Command::ZRank(k(), s("b"))),
+        (&mk_zset, Command::ZRange(k(), 0, -1, true)),
+        (&mk_zset, Command::ZRevRange(k(), 0, -1, false)),
+        (&mk_zset, Command::ZCount(k(), "-inf".into(), "+inf".into())),
+        (&mk_zset, Command::ZRangeByScore { key: k(), min: "0".into(), max: "5".into(), with_scores: false, limit: None }),
+        (&mk_zset, Command::ZAdd { key: k(), pairs: vec![(3.0, s("c"))], nx: false, xx: false, gt: false, lt: false, ch: false }),
+        (&mk_zset, Command::ZRem(k(), vec![s("a")])),
+    ];
+    let mut all = Vec::new();
+    for (mk, c) in cmds {
+        let c = fl(c);
+        if enc_cmd(&c, &RespValue::BulkString(None)).is_none() || !admissible(&c) {
+            continue;
+        }
+        for (state, dt) in [("before", 99u64), ("at", 100), ("after", 101), ("far", 60_000)] {
+            let mut v: Vec<Step> = mk.iter().map(|m| Step::Cmd(t, m.clone())).collect();
+            v.push(Step::Cmd(t, pex(100)));
+            // traffic for the other shards only, while the deadline passes
+            for (i, o) in others.iter().enumerate().take(2) {
+                v.push(Step::Cmd(t + dt.min(100 + i as u64), Command::set(o.clone(), s("o"))));
+            }
+            v.push(Step::Cmd(t + dt, c.clone()));
+            v.push(Step::Dump(t + dt));
+            v.push(Step::Cmd(t + dt, Command::DbSize));
+            all.push((format!("after-deadline:{}:{}", c.name(), state), v));
+        }
+    }
+    all
+}
+
 pub async fn run_steps(out: &mut Out, pend: &mut Vec<Pending>, ctx: &Ctx, n: usize, label: &str, steps: &[Step]) {
     let universe: Vec<String> = KEYS.iter().map(|k| k.to_string()).collect();
     let start = out.n_ops();
